@@ -3,6 +3,8 @@ package checks
 import (
 	"fmt"
 	"math"
+	"os"
+	"runtime"
 	"time"
 
 	"github.com/simpleiot/simpleiot/client"
@@ -16,7 +18,7 @@ func init() { Registry["C05"] = runC05 }
 func runC05(tier string, _ []string) int {
 	c := vlib.NewCtx("C05", tier, "exploration")
 	vlib.SetPortBlock(5)
-	c.SetRule("per case a fresh instance with a random graph (C03/C06 generators), then PRNG requests of the classes that must be refused (tombstone on the root; self edge; new edge closing a cycle through live or deleted edges, sent raw and through client.MoveNode / client.MirrorNode; first edge without nodeType; NaN at any position of a node or edge batch, quiet and signalling, both signs) mixed with legal look-alikes that must be accepted (mirror to a non-ancestor, tombstone 0 on the root, +-Inf) and open-status requests (undecodable payloads, root tombstone 2). Monitor: reply of each request; full dump (placements, points, edge points, hashes) before/after every request answered with an error must be identical; an up.> tap drained at the reply barrier must be empty; a follow-up acknowledged write to an unrelated node must be answered. distinct = (request class, graph size bucket, outcome)")
+	c.SetRule("per case a fresh instance with a random graph (C03/C06 generators), then PRNG requests of the classes that must be refused (tombstone on the root; self edge; new edge closing a cycle through live or deleted edges, sent raw and through client.MoveNode / client.MirrorNode; first edge without nodeType; NaN at any position of a node or edge batch, quiet and signalling, both signs) mixed with legal look-alikes that must be accepted (mirror to a non-ancestor, tombstone 0 on the root, +-Inf) and open-status requests (undecodable payloads, root tombstone 2). Monitor: reply of each request; full dump (placements, points, edge points, hashes) before/after every request answered with an error must be identical; an up.> tap drained at the reply barrier must be empty; a follow-up acknowledged write to an unrelated node must be answered. distinct = (request class, graph size bucket, outcome) Finally 1500 refusals (cycles, NaN, missing node type, root tombstone, self edge) on one instance: the process must hold as many file descriptors and goroutines afterwards as before.")
 	c.Assume("a stack overflow / process death caused by a cycle is reported by the check wrapper as a violation (process-death)")
 	nGraphs := c.N(40, 400)
 	perGraph := c.N(32, 48)
@@ -471,6 +473,82 @@ func runC05(tier string, _ []string) int {
 			}
 		}
 	})
+	// ---- refusals leave nothing behind in the process either: after several hundred refusals of each
+	// kind on one instance it holds as many file descriptors and goroutines as before (an instance that
+	// leaks one per refusal stops answering once the limit is reached)
+	if !vlib.Aborted() {
+		func() {
+			r := vlib.NewR(c.Seed, "c05leak", 0)
+			in, err := vlib.StartInstance(vlib.InstCfg{ID: "c05-leak"})
+			if err != nil {
+				c.Inconclusive(err.Error())
+				return
+			}
+			defer in.Stop()
+			nc, err := in.Connect()
+			if err != nil {
+				c.Inconclusive(err.Error())
+				return
+			}
+			d := newGdriver(r, nc, in.RootID, "lk")
+			a, _ := d.create(in.RootID, "group", false)
+			b, _ := d.create(a, "group", false)
+			cc, err := d.create(b, "variable", false)
+			if err != nil {
+				c.Violate("store:legal-write-refused", err.Error(), nil)
+				return
+			}
+			count := func() (fds, gor int) {
+				es, _ := os.ReadDir("/proc/self/fd")
+				return len(es), runtime.NumGoroutine()
+			}
+			refuse := func(rounds int) bool {
+				for q := 0; q < rounds; q++ {
+					reqs := []struct {
+						subj string
+						pts  data.Points
+					}{
+						{vlib.EdgeSubj(a, cc), data.Points{{Type: data.PointTypeTombstone, Time: d.now()}, {Type: data.PointTypeNodeType, Text: "group"}}}, // cycle
+						{vlib.EdgeSubj(a, b), data.Points{{Type: data.PointTypeTombstone, Time: d.now()}, {Type: data.PointTypeNodeType, Text: "group"}}},  // cycle (short)
+						{vlib.NodeSubj(cc), data.Points{{Type: "value", Time: d.now(), Value: math.NaN()}}},
+						{vlib.EdgeSubj(d.newID(), a), data.Points{{Type: data.PointTypeTombstone, Time: d.now()}}}, // no node type
+						{vlib.EdgeSubj(in.RootID, "root"), data.Points{{Type: data.PointTypeTombstone, Time: d.now(), Value: 1}}},
+						{vlib.EdgeSubj(b, b), data.Points{{Type: data.PointTypeTombstone, Time: d.now()}, {Type: data.PointTypeNodeType, Text: "group"}}},
+					}
+					for _, rq := range reqs {
+						e, err := vlib.SendAck(nc, rq.subj, rq.pts)
+						c.Eval(1)
+						if err != nil || e == "" {
+							c.Violate("refused-write:accepted:repeated-refusals", fmt.Sprintf("request on %s in round %d of repeated refusals: reply %q err %v", rq.subj, q, e, err), nil)
+							return false
+						}
+					}
+				}
+				return true
+			}
+			if !refuse(20) { // warm-up: pools and caches reach their working size
+				return
+			}
+			time.Sleep(300 * time.Millisecond)
+			f0, g0 := count()
+			if !refuse(250) {
+				return
+			}
+			time.Sleep(300 * time.Millisecond)
+			f1, g1 := count()
+			c.Extra("descriptors_before_after_1500_refusals", []int{f0, f1})
+			c.Extra("goroutines_before_after_1500_refusals", []int{g0, g1})
+			if f1-f0 > 60 || g1-g0 > 60 {
+				c.Violate("refused-write:left-a-trace-in-process", fmt.Sprintf("1500 refused requests left %d more open file descriptors and %d more goroutines behind (before %d / %d, after %d / %d)", f1-f0, g1-g0, f0, g0, f1, g1), nil)
+				return
+			}
+			if e, err := d.sendNode(cc, data.Points{{Type: "value", Time: d.now(), Value: 1}}); err != nil || e != "" {
+				c.Violate("refused-write:later-request-not-answered", fmt.Sprintf("write after 1500 refusals: %v %s", err, e), nil)
+				return
+			}
+			c.Count("repeated_refusals_without_leak", 1)
+		}()
+	}
 	c.Require("refused_checked", 40)
 	return c.Finish()
 }
